@@ -286,3 +286,47 @@ def who(ctx, key, what, sites, allowed, db=None):
             ok = False
             ctx.violated("%s:%s" % (key, rk), "%s — not an allowed site" % what, where(fn, bb, idx), fn=fn)
     return ok
+
+
+def ret_defs(fn):
+    """Definitions of the return place: [(bb, kind, payload)], kind in const|expr|call."""
+    out = []
+    for i, b in enumerate(fn["blocks"]):
+        if b.get("c"):
+            continue
+        for j, s in enumerate(b["s"]):
+            if s[0] == "=" and s[1][0] == 0 and not s[1][1]:
+                rv = s[2]
+                if rv[0] == "use" and rv[1][0] == "k" and "v" in rv[1][1]:
+                    out.append((i, "const", int(rv[1][1]["v"])))
+                else:
+                    out.append((i, "expr", cfg.expr_rvalue(fn, rv)))
+        t = b["t"]
+        if t[0] == "call" and t[3][0] == 0 and not t[3][1]:
+            out.append((i, "call", ("call", t[1], [cfg.expr_operand(fn, a) for a in t[2]], i)))
+    return out
+
+
+def true_only_if(db, fn, preds, allowed_calls=()):
+    """Bool function: `true` is returned only on paths implying one of preds, or as the
+    value of a call matching allowed_calls.  Returns (ok, problems[list of str], n_sites)."""
+    problems = []
+    n = 0
+    allowed = [rx(a) for a in allowed_calls]
+    for bb, kind, val in ret_defs(fn):
+        n += 1
+        if kind == "const":
+            if val == 0:
+                continue
+            ok, allow, bad = dom_check(db, fn, [bb], any_of(*preds))
+            if not ok or not allow:
+                problems.append("returns true at %s without an allowing condition" % where(fn, bb))
+        elif kind == "call":
+            if not any(callee_is(val, a) for a in allowed):
+                problems.append("returns the value of %s at %s" % (show(val), where(fn, bb)))
+        else:
+            e = peel(val)
+            if e[0] == "call" and any(callee_is(e, a) for a in allowed):
+                continue
+            problems.append("returns %s at %s" % (show(val), where(fn, bb)))
+    return (not problems), problems, n
